@@ -24,6 +24,39 @@ Proof. reflexivity. Qed.
 Lemma tree_of_obj ms : tree_of (VObj ms) = PNode (obj_kids ms).
 Proof. reflexivity. Qed.
 
+(* values whose serialisation determines them: no empty array or object below the top, member
+   names unique within an object *)
+Definition keys_of {A} (l : list (string * A)) : list string := map fst l.
+Fixpoint wfv (v : dval) : Prop :=
+  match v with
+  | VPrim _ => True
+  | VArr l => l <> [] /\ (fix go (l : list dval) : Prop := match l with [] => True | x :: r => wfv x /\ go r end) l
+  | VObj ms => ms <> [] /\ NoDup (map fst ms) /\
+               (fix go (ms : list (string * dval)) : Prop := match ms with [] => True | (_, x) :: r => wfv x /\ go r end) ms
+  end.
+Fixpoint wf_all (l : list dval) : Prop := match l with [] => True | x :: r => wfv x /\ wf_all r end.
+Fixpoint wf_members (ms : list (string * dval)) : Prop := match ms with [] => True | (_, x) :: r => wfv x /\ wf_members r end.
+Lemma wfv_arr l : wfv (VArr l) = (l <> [] /\ wf_all l).
+Proof. reflexivity. Qed.
+Lemma wfv_obj ms : wfv (VObj ms) = (ms <> [] /\ NoDup (map fst ms) /\ wf_members ms).
+Proof. reflexivity. Qed.
+
+(* member names are non-empty (the decoder reads the member "" at the path of its parent) *)
+Fixpoint nek (v : dval) : Prop :=
+  match v with
+  | VPrim _ => True
+  | VArr l => (fix go (l : list dval) : Prop := match l with [] => True | x :: r => nek x /\ go r end) l
+  | VObj ms => (fix go (ms : list (string * dval)) : Prop :=
+                  match ms with [] => True | (k, x) :: r => k <> ""%string /\ nek x /\ go r end) ms
+  end.
+Fixpoint nek_all (l : list dval) : Prop := match l with [] => True | x :: r => nek x /\ nek_all r end.
+Fixpoint nek_members (ms : list (string * dval)) : Prop :=
+  match ms with [] => True | (k, x) :: r => k <> ""%string /\ nek x /\ nek_members r end.
+Lemma nek_arr l : nek (VArr l) = nek_all l.
+Proof. reflexivity. Qed.
+Lemma nek_obj ms : nek (VObj ms) = nek_members ms.
+Proof. reflexivity. Qed.
+
 Section SPEC.
   Variable parse_int64 parse_int32 : string -> option Z.
   Variable parse_float : string -> option float.
@@ -64,6 +97,22 @@ Section SPEC.
                                      end) decl [])
         | _ => None
         end
-    | DSObj _ (Some _) => None
+    | DSObj decl (Some aps) =>
+        (* additionalProperties: the declared members as above, then every other member at the
+           schema of the additional properties, in the order of the value *)
+        match v with
+        | VObj ms =>
+            match obj_loop (fun k ps => match assoc k ms with
+                                        | None => BOk PNil
+                                        | Some x => match reading ps x with Some p => BOk p | None => BErr end
+                                        end) decl [] with
+            | None => None
+            | Some m =>
+                option_map PO
+                  (obj_loop (fun k x => if has_key k decl then BOk PNil
+                                        else match reading aps x with Some p => BOk p | None => BErr end) ms m)
+            end
+        | _ => None
+        end
     end.
 End SPEC.
